@@ -103,3 +103,43 @@ package socket
 //@   modifies nothing
 //@ trusted getProto
 //@   modifies nothing
+
+// ---- C15: decoding never writes into a shared status ------------------------
+// A message handed to Unpack carries no status yet or one of its own (the
+// framework hands in a cleaned context message / a fresh pooled message).
+//@ spec fn msgOwnStatus(m *message) bool = !sharedStatus(m.status)
+
+// body binders installed with SetNewBody and protocol/filters supplied by users
+// do not put a shared status into the message being decoded (assumption)
+//@ iface dynamic:socket.NewBodyFunc
+//@   params hdr
+//@   flags libframe
+//@   let hm = as(hdr, type(*message))
+//@   modifies hm.body
+//@ iface xfer.XferFilter.OnUnpack
+//@   flags libframe
+//@ iface xfer.XferFilter.OnPack
+//@   flags libframe
+//@ iface codec.Codec.Unmarshal
+//@   flags libframe
+//@ iface codec.Codec.Marshal
+//@   flags libframe
+
+//@ func (*rawProto).readHeader
+//@   property C15
+//@   requires msgOwnStatus(as(m, type(*message)))
+
+//@ func (*rawProto).Unpack
+//@   property C15
+//@   requires msgOwnStatus(as(m, type(*message)))
+
+//@ iface socket.Proto.Unpack
+//@   params self msg
+//@   flags libframe
+//@   let pm = as(msg, type(*message))
+//@   requires[own-status] msgOwnStatus(pm)
+//@   modifies pm.serviceMethod, pm.status, pm.body, pm.size, pm.seq, pm.mtype, pm.bodyCodec, fields(pm.meta), allelems(type(utils.argsKV)), fields(pm.xferPipe)
+
+//@ func (*socket).ReadMessage
+//@   property C15
+//@   requires msgOwnStatus(as(message, type(*message)))
